@@ -3,6 +3,7 @@ package harness
 import (
 	"context"
 	"crypto/ed25519"
+	"errors"
 	"fmt"
 	"math/big"
 	"sort"
@@ -490,7 +491,7 @@ func sortedStrings(m map[string]bool) []string {
 // "nothing to truncate" into a fatal exit; the hook hands it to the harness instead and the node lives on
 // in a state production never continues from.
 func (w *World) noteTruncErr(node int, err error) {
-	if err == nil || strings.Contains(err.Error(), "nothing to truncate") {
+	if err == nil || errors.Is(err, accountant.ErrNothingToTruncate) || strings.Contains(err.Error(), "nothing to truncate") {
 		return
 	}
 	if w.truncFailed == nil {
